@@ -146,6 +146,7 @@ IO_RECEIVERS = {'self.stream', 'this.stream', 'sys.stdout', 'sys.stderr', 'conso
 ROW_NAMES = INTEREST                     # a write(..) parameter with one of these names is a flat row (depth 1)
 SRC_METHODS = {'get_record', 'get_rhs', 'get_join_records'}
 EMIT_RECEIVERS = {'query_context.writer', 'self.subwriter', 'this.subwriter'}
+RESOLVED_METHODS = {'increment', 'get_final', 'parse'}   # methods of engine objects (aggregators, NumHandler) resolved by name, see calls rule
 WRITER_CLASSES = ['TopWriter', 'UniqWriter', 'UniqCountWriter', 'SortedWriter', 'AggregateWriter', 'TableWriter', 'CSVWriter']
 
 # (name, python query, javascript query, needs join table)
@@ -309,6 +310,11 @@ class Source:
                     pass
             self._methods = {m.name for c, _f in self.classes.values() for m in c.body if isinstance(m, (ast.FunctionDef, ast.AsyncFunctionDef))}
         return self._methods
+
+    def methods_named(self, m):
+        """[(method def, class def, file)] for every class of the translated files that defines a method m"""
+        self.method_names()
+        return [(d, c, f) for c, f in self.classes.values() for d in c.body if isinstance(d, (ast.FunctionDef, ast.AsyncFunctionDef)) and d.name == m]
 
     def function(self, name):
         if name in self.js_items and self.js_items[name][0] == 'function':
@@ -675,6 +681,8 @@ def compute_lv(body, init, aliases=()):
                 lv.add(f.value.id)
             if isinstance(f, ast.Name) and f.id in LISTY_FUNCS:
                 lv.update(a.id for a in n.args if isinstance(a, ast.Name))
+            if isinstance(f, ast.Attribute) and f.attr in RESOLVED_METHODS:
+                lv.update(a.id for a in n.args if isinstance(a, ast.Name))
             if is_emit_call(n, aliases) and n.args and isinstance(n.args[-1], ast.Name):
                 lv.add(n.args[-1].id)
         elif isinstance(n, ast.For):
@@ -783,6 +791,8 @@ def depth_of(e, lv, env):
                 return 1
             if f.attr in SRC_METHODS:
                 return 3
+            if f.attr in RESOLVED_METHODS:
+                return 0                # what such a method returns is never trusted (shape A): a cell value
             if expr_text(f) == 'Array.from' and len(e.args) == 1:
                 return max(1, depth_of(e.args[0], lv, env))
             if f.attr in COPY_METHODS:
@@ -1189,6 +1199,10 @@ def attr_shapes(source):
     position makes every attribute untrusted."""
     classes = [source.klass(c) for c in WRITER_CLASSES]
     classes = [c for c in classes if c is not None]
+    for m in sorted(RESOLVED_METHODS):
+        for _d, c, f in source.methods_named(m):
+            if not any(c is x[0] for x in classes):
+                classes.append((c, f))
     ATTR_SHAPES.clear()
     methods = []
     for cdef, _f in classes:
@@ -1208,12 +1222,13 @@ def attr_shapes(source):
                     shapes[params[-1]] = ENTRY
                 init = {params[-1]} if (m.name == 'write' and params) else set()
                 lv = compute_lv(m.body, init | (INTEREST & set(pnames)))
-                methods.append((m, lv, shapes))
+                methods.append((cdef.name, m, lv, shapes))
     for _round in range(40):
-        base, idx, deep, poison = {}, {}, set(), False
-        for m, lv, shapes in methods:
-            env, lossy = compute_shape(m.body, lv, shapes, is_self)
-            sh = Shaper(lv, env, is_self)
+        base, idx, deep, poison = {}, {}, set(), set()
+        for cname, m, lv, shapes in methods:
+            state = (lambda e, cname=cname: cname if is_self(e) else None)
+            env, lossy = compute_shape(m.body, lv, shapes, state)
+            sh = Shaper(lv, env, state)
             b, ix = {}, {}
 
             def extra(t):
@@ -1229,25 +1244,45 @@ def attr_shapes(source):
                     alias.setdefault(n.targets[0].id, set()).add(n.value.attr)
             for k in set(b) | set(ix):
                 if isinstance(k, tuple) and k[0] == 'attr':
-                    base.setdefault(k[1], []).extend(x[0] for x in b.get(k, []))
-                    idx.setdefault(k[1], []).extend(ix.get(k, []))
+                    base.setdefault((cname, k[1]), []).extend(x[0] for x in b.get(k, []))
+                    idx.setdefault((cname, k[1]), []).extend(ix.get(k, []))
                 elif isinstance(k, tuple):
-                    deep.add(k[1])
+                    deep.add((cname, k[1]))
                 else:
                     stores = [x[0] for x in b.get(k, []) if is_store_node(x[2])]
                     if (stores or ix.get(k)) and k in lossy:
-                        poison = True
+                        poison.add(cname)
                     for x in alias.get(k, ()):
-                        base.setdefault(x, []).extend(stores)
-                        idx.setdefault(x, []).extend(ix.get(k, []))
+                        base.setdefault((cname, x), []).extend(stores)
+                        idx.setdefault((cname, x), []).extend(ix.get(k, []))
         new = {}
         for x in set(base) | set(idx) | deep:
-            new[x] = A if (poison or x in deep) else apply_index_stores(meet_all(base.get(x, [])), idx.get(x, []))
+            new[x] = A if (x[0] in poison or x in deep) else apply_index_stores(meet_all(base.get(x, [])), idx.get(x, []))
         if new == ATTR_SHAPES:
             break
         ATTR_SHAPES.clear()
         ATTR_SHAPES.update(new)
     return ATTR_SHAPES
+
+
+def attr_shape(key, attr, default):
+    """shape kept in attribute attr of class key; key '*': of some writer of the chain (any class that has the attribute)"""
+    if key == '*':
+        found = [v for (c, a), v in ATTR_SHAPES.items() if a == attr]
+        return meet_all(found) if found else default
+    return ATTR_SHAPES.get((key, attr), default)
+
+
+def _container_methods():
+    """every method name of the builtin CONTAINER types of both languages (a cell that is a list object has no other method)"""
+    import collections
+    names = set()
+    for ty in (list, dict, set, frozenset, tuple, bytearray, collections.OrderedDict, collections.defaultdict, collections.deque):
+        names.update(n for n in dir(ty) if not n.startswith('__'))
+    names.update('''at concat copyWithin entries every fill filter find findIndex findLast findLastIndex flat flatMap forEach includes indexOf join keys
+        lastIndexOf map pop push reduce reduceRight reverse shift slice some sort splice toLocaleString toReversed toSorted toSpliced toString unshift
+        values with length size get set has delete clear add valueOf hasOwnProperty isPrototypeOf propertyIsEnumerable'''.split())
+    return names | MUTATORS | COPY_METHODS | FRESH_METHODS | ELEM_METHODS | ITER_METHODS | (READ_METHODS - {'startswith', 'endswith'})
 
 
 def _builtin_methods():
@@ -1264,6 +1299,7 @@ def _builtin_methods():
 
 
 BUILTIN_METHODS = _builtin_methods()
+CONTAINER_METHODS = _container_methods()
 
 
 class Shaper:
@@ -1340,8 +1376,9 @@ class Shaper:
         if isinstance(e, ast.Await):
             return self.of(e.value)
         if isinstance(e, ast.Attribute):
-            if self.state(e.value):
-                return ATTR_SHAPES.get(e.attr, A)
+            key = self.state(e.value)
+            if key:
+                return attr_shape(key, e.attr, A)
             return A
         if isinstance(e, ast.Call):
             f = e.func
@@ -1408,6 +1445,8 @@ def ends_with_jump(stmts):
         return True
     if isinstance(s, ast.If):
         return ends_with_jump(s.body) and ends_with_jump(s.orelse)
+    if isinstance(s, ast.Try) and not s.orelse and not s.finalbody:
+        return ends_with_jump(s.body) and all(ends_with_jump(h.body) or always_raises(h.body) for h in s.handlers)
     return False
 
 
@@ -1416,6 +1455,8 @@ def may_jump_at_tail(s):
         return True
     if isinstance(s, ast.If):
         return bool((s.body and may_jump_at_tail(s.body[-1])) or (s.orelse and may_jump_at_tail(s.orelse[-1])))
+    if isinstance(s, ast.Try) and not s.orelse and not s.finalbody:
+        return bool((s.body and may_jump_at_tail(s.body[-1])) or any(h.body and may_jump_at_tail(h.body[-1]) for h in s.handlers))
     return False
 
 
@@ -1511,8 +1552,8 @@ class Tr:
         # rooted at writer state: the object is owned when it IS a writer attribute (self.attr, W.attr) or sits at a position of
         # the writer's state that holds a tracked object at every store site; anything else may be a cell that got there
         # through an untracked name
-        if isinstance(e, ast.Attribute) and self.state_pred(self.scope)(e.value):
-            return ('load',)
+        if isinstance(e, ast.Attribute) and self.state_pred(self.scope)(e.value) and attr_shape(self.state_pred(self.scope)(e.value), e.attr, TOP) != A:
+            return ('load',)            # every value a writer class stores in that attribute is a tracked (SStore'd) or new object
         if tracked(self.shape(e)):
             return ('load',)
         t = self.prog.tmp('st')
@@ -1590,7 +1631,7 @@ class Tr:
                 th()
         return k
 
-    def escape(self, e, mutate, row_ok=False):
+    def escape(self, e, mutate, row_ok=False, state=False):
         """the value of e escapes (stored in a container / attribute, or handed to unknown code when mutate).
         row_ok: the destination is a flat row (its cells are never trusted), so storing a CELL there needs no statement"""
         if isinstance(e, ast.Starred):
@@ -1598,7 +1639,10 @@ class Tr:
         if isinstance(e, (ast.List, ast.Tuple, ast.Set)):
             inner_row = self.depth(e) <= 1
             for x in e.elts:
-                self.escape(x, mutate, inner_row and not mutate)
+                if not mutate and not isinstance(x, ast.Starred) and not tracked(self.shape(x)):
+                    self.read(x)        # this position of the display has shape A: whoever reads it gets a CELL
+                else:
+                    self.escape(x, mutate, inner_row and not mutate)
             if not mutate:
                 return
             return
@@ -1610,8 +1654,10 @@ class Tr:
         k = self.classify(e)
         if k[0] in ('scalar', 'unknown'):
             return
-        if k[0] == 'cell' and row_ok and not mutate:
-            return
+        if (k[0] == 'cell' or not tracked(self.shape(e))) and row_ok and not mutate:
+            return                      # an untrusted value (a cell, the result of untranslated / resolved code) put into a flat row
+        if state and not mutate and not tracked(self.shape(e)):
+            return                      # kept in untracked state at a position that no reader trusts (shape A): it comes back as a CELL
         x = self.materialize(k, 'esc')
         if mutate:
             self.emit('setitem', x)
@@ -1712,8 +1758,8 @@ class Tr:
         if isinstance(e, (ast.List, ast.Tuple, ast.Set)):
             row = self.depth(e) <= 1
             for x in e.elts:
-                if isinstance(x, ast.Starred):
-                    self.read(x.value)
+                if isinstance(x, ast.Starred) or not tracked(self.shape(x)):
+                    self.read(x.value if isinstance(x, ast.Starred) else x)     # a position of shape A: read back as a CELL
                 else:
                     self.escape(x, False, row)
             return ('fresh',)
@@ -1726,10 +1772,39 @@ class Tr:
             bound = set()
             for g in e.generators:
                 bound.update(target_names(g.target))
+            parts = [e.elt] if not isinstance(e, ast.DictComp) else [e.key, e.value]
+            outer = any(isinstance(n, ast.Name) and n.id in sc.lv and n.id not in bound for n in walk_all(parts))
+            resolved = any(isinstance(n, ast.Call) and isinstance(n.func, ast.Attribute) and n.func.attr in RESOLVED_METHODS for n in walk_all(parts))
+            if (outer or resolved) and not any(g.is_async for g in e.generators) and not (bound & sc.locals):
+                # the comprehension as the loop it is: every generator binds its targets like a for statement, the element is
+                # evaluated per step and ESCAPES into the new list (SStore for a tracked object; the elements of the result are
+                # never trusted, so a cell needs no statement)
+                def gen(i):
+                    if i == len(e.generators):
+                        for x in parts:
+                            self.read(x)        # no SStore: the elements of the result are never read back as owned objects
+                        return
+                    g = e.generators[i]
+                    it = unwrap_iter(g.iter)
+                    k = self.classify(it)
+                    if k[0] not in ('scalar', 'unknown', 'src', 'var'):
+                        k = ('var', self.materialize(k, 'it'))
+                    d = self.depth(it)
+                    es = self.shape(IterElem(value=g.iter))
+
+                    def body():
+                        self.bind_iter(g.target, k, d, g, es)
+                        for c in g.ifs:
+                            self.read(c)
+                        gen(i + 1)
+                    self.emit('for', self.sub(body))
+                gen(0)
+                return ('fresh',)
+            for g in e.generators:
                 self.read(unwrap_iter(g.iter))
                 for c in g.ifs:
                     self.read(c)
-            for n in walk_all([e.elt] if not isinstance(e, ast.DictComp) else [e.key, e.value]):
+            for n in walk_all(parts):
                 if isinstance(n, ast.Name) and n.id in sc.lv and n.id not in bound:
                     self.fail(n, 'list variable %r inside a comprehension element' % n.id)
             return ('fresh',)
@@ -1766,6 +1841,10 @@ class Tr:
             if self.is_lv(e.value):
                 if e.attr in ('length', 'size'):
                     return ('scalar',)
+                if e.attr not in BUILTIN_METHODS:
+                    # not an attribute of a builtin list (reading it raises there): the variable holds some other object (a
+                    # cell value such as an aggregation token); what its field holds is never trusted
+                    return ('cell', self.v(e.value.id))
                 self.fail(e, 'attribute %r of list variable %r outside a call' % (e.attr, e.value.id))
             kb = self.classify(e.value)
             if kb[0] in ('scalar', 'unknown'):
@@ -1874,7 +1953,7 @@ class Tr:
                 for a in c.args:
                     self.read(a)
                 return ('scalar',)
-            if m == 'format' and isinstance(f.value, ast.Constant):
+            if m == 'format' and (isinstance(f.value, ast.Constant) or (expr_text(f.value) is not None and root_name(f.value) not in sc.lv)):
                 for a in c.args + kwvals:
                     self.read(a)
                 return ('scalar',)
@@ -1883,9 +1962,36 @@ class Tr:
                     self.read(a)
                 return ('scalar',)
             kr = self.classify(f.value)
-            if kr[0] == 'cell' and m not in BUILTIN_METHODS and m in self.src.method_names():
-                # a method of an engine object (an aggregator's increment ..) called on a CELL: a cell is an atom or a builtin
-                # list (ASSUMED), which has no such method - the call raises or the receiver is no list object of the model
+            if kr[0] in ('cell', 'unknown') and m in RESOLVED_METHODS and not kwvals and not any(isinstance(a, ast.Starred) for a in c.args):
+                # an engine-object method that is resolved BY NAME: the receiver is an atom / builtin list (the call raises) or
+                # an instance of one of the classes of the translated files that define m: one branch per definition
+                cands = self.src.methods_named(m)
+                if cands:
+                    res = self.prog.tmp('poly')
+                    kinds = []
+
+                    def build(i):
+                        def one(cand):
+                            k = self.inline(cand[0], cand[2], c.args, c, (cand[1], cand[2]), 'writer')
+                            kinds.append(k)
+                            if k[0] in ('scalar', 'unknown'):
+                                self.emit('assign', res, ('fresh',), 'ret')
+                            else:
+                                self.assign_kind(res, k)
+                        if i == len(cands) - 1:
+                            one(cands[i])
+                            return
+                        a = self.sub(lambda: one(cands[i]))
+                        b = self.sub(lambda: build(i + 1))
+                        self.emit('if', a, b)
+                    build(0)
+                    if all(k[0] in ('scalar', 'unknown') for k in kinds):
+                        self.out[:] = strip_assigns(self.out, res)
+                        return ('unknown', c)
+                    return ('var', res)
+            if kr[0] not in ('scalar', 'unknown') and m not in CONTAINER_METHODS:
+                # a method that no builtin container has (a string method, a method of an engine object): the list objects of
+                # the model are builtin lists / arrays (ASSUMED), so the call raises or the receiver is no list object at all
                 for a in c.args + kwvals:
                     self.escape_arg_unknown(a)
                 return ('unknown', c)
@@ -1894,8 +2000,13 @@ class Tr:
                 if m in MUTATORS:
                     if isinstance(f.value, ast.Name) and f.value.id in (sc.lossy | sc.opaque):
                         self.flag(c, 'mutation through %r, whose view of the object may differ from that of another name' % f.value.id)
+                    # an untrusted value needs no SStore when nobody trusts the elements of the receiver: a flat row (depth), or a
+                    # NAME whose shape - equal to the shape every object it aliases promises (else flagged above) - has
+                    # untrusted elements
+                    flat = self.depth(f.value) <= 1 or (isinstance(f.value, ast.Name) and f.value.id not in (sc.lossy | sc.opaque)
+                                                        and not tracked(elem(self.shape(f.value))) and not has_trust(self.shape(f.value)))
                     for a in c.args + kwvals:
-                        self.escape(a, False, self.depth(f.value) <= 1)
+                        self.escape(a, False, flat)
                     self.emit('setitem', x)
                     if m in ELEM_METHODS:
                         return ('elem', x) if (self.depth(f.value) > 1 and tracked(self.shape(c))) else ('cell', x)
@@ -1924,7 +2035,11 @@ class Tr:
             if m in MUTATORS:
                 self.check_state_store(f.value, mutator_site(Shaper(sc.lv, sc.shape, self.state_pred(sc)), c), c)
                 for a in c.args + kwvals:
-                    self.escape(a, False)
+                    self.escape(a, False, True, True)   # untracked container: an untrusted value stored there comes back as a CELL (shapes)
+                return ('unknown', c)
+            if m in READ_METHODS or m in COPY_METHODS or m in FRESH_METHODS:
+                for a in c.args + kwvals:
+                    self.read(a)            # ASSUMED: a method with the name of a read-only builtin method does not change its arguments
                 return ('unknown', c)
             for a in c.args + kwvals:
                 self.escape_arg_unknown(a)
@@ -1967,7 +2082,7 @@ class Tr:
                 return []          # assigned something else: treat the call as unknown
         return found
 
-    def inline(self, fdef, ffile, args, callnode, cls):
+    def inline(self, fdef, ffile, args, callnode, cls, ctx=None):
         name = fdef.name
         if name in self.stack or len(self.stack) > 12:
             # recursion: the arguments may be changed / kept by the callee
@@ -2031,7 +2146,7 @@ class Tr:
                 sa = S(self.shape(args[i].elt)) if (len(ns) == 1 and ns[0] in lazy) else self.shape(args[i])
                 for n in ns:
                     pshape[n] = sa if len(ns) == 1 else elem(sa)
-        new = self.make_scope(fdef.body, [n for ns in pnames for n in ns], init, prefix, self.scope.ctx,
+        new = self.make_scope(fdef.body, [n for ns in pnames for n in ns], init, prefix, ctx or self.scope.ctx,
                               cls, ffile, '%s (%s:%d)' % (name, ffile, getattr(fdef, 'lineno', 0)), pdepth, emit_alias, pshape,
                               [ns[0] for i, ns in enumerate(pnames) if len(ns) == 1 and i < len(args) and isinstance(args[i], ast.Name)
                                and args[i].id in (self.scope.lossy | self.scope.opaque)])
@@ -2134,7 +2249,15 @@ class Tr:
         return sc
 
     def state_pred(self, sc):
-        return lambda e: (sc.ctx == 'writer' and is_self(e)) or expr_text(e) == 'query_context.writer' or (isinstance(e, ast.Name) and e.id in sc.wlocals)
+        """e -> the class whose state the attributes of e are (self / this in a method of that class), '*' for a writer of the
+        chain whose class is not known (query_context.writer, a writer local), None when e is not writer state"""
+        def pred(e):
+            if sc.ctx == 'writer' and is_self(e):
+                return sc.cls[0].name if sc.cls is not None else '*'
+            if expr_text(e) == 'query_context.writer' or (isinstance(e, ast.Name) and e.id in sc.wlocals):
+                return '*'
+            return None
+        return pred
 
     def is_inlined_call(self, c, sc):
         f = c.func
@@ -2179,13 +2302,26 @@ class Tr:
                         setattr(s2, attr, getattr(s, attr))
                 self.stmt(s2, tail)
                 return
+            body_returns = isinstance(s, ast.Try) and bool(s.body) and isinstance(s.body[-1], ast.Return) \
+                and not any(isinstance(n, JUMPS) for n in walk_shallow(s.body[:-1]))
             if isinstance(s, ast.Try) and rest and not s.orelse and not s.finalbody and s.handlers \
-                    and any(may_jump_at_tail(h.body[-1]) for h in s.handlers if h.body):
+                    and (body_returns or any(may_jump_at_tail(h.body[-1]) for h in s.handlers if h.body)):
                 # a handler leaves by return / break / continue while statements follow the try: the body runs (any part
                 # of it), then EITHER one handler runs - followed by the rest of the block if it can fall through - OR the
-                # rest of the block runs
-                ir = self.sub(lambda: self.block(s.body, None))
-                self.out.extend(optional(ir))
+                # rest of the block runs.  When the body itself ends with `return e` (its only jump): EITHER the whole body
+                # runs and returns, OR any part of it (e evaluated for its effects) and then a handler / the rest as above.
+                if body_returns:
+                    ret = s.body[-1]
+                    wo = list(s.body[:-1]) + ([ast.copy_location(ast.Expr(value=ret.value), ret)] if ret.value is not None else [])
+                    whole = self.sub(lambda: self.block(s.body, tail))
+                    part = self.sub(lambda: self.block(wo, None))
+                else:
+                    whole = None
+                    part = self.sub(lambda: self.block(s.body, None))
+                outer = self.out
+                if whole is not None:
+                    self.out = []
+                self.out.extend(optional(part))
 
                 def chain(j):
                     if j == len(s.handlers):
@@ -2197,6 +2333,10 @@ class Tr:
                     b = self.sub(lambda: chain(j + 1))
                     self.emit('if', a, b)
                 chain(0)
+                if whole is not None:
+                    alt = self.out
+                    self.out = outer
+                    self.emit('if', whole, alt)
                 return
             self.stmt(s, tail if last else None)
             i += 1
@@ -2274,7 +2414,8 @@ class Tr:
             return
         if isinstance(t, ast.Subscript):
             self.store_into(t.value, node)
-            if self.classify_quiet(t.value) in ('scalar', 'unknown'):
+            untracked = self.classify_quiet(t.value) in ('scalar', 'unknown')
+            if untracked:
                 self.check_state_store(t.value, ('base', S(elem(shape))) if isinstance(t.slice, ast.Slice)
                                        else ('idx', self.shape(t.slice), shape, index_kind(t.value, t.slice)), node)
             if isinstance(t.slice, ast.Slice):
@@ -2282,20 +2423,21 @@ class Tr:
                     if x is not None:
                         self.read(x)
             else:
-                self.escape(t.slice, False)        # an object used as a key is kept by the container
-            self.escape_kind(kind, self.depth(t.value) <= 1 and self.classify_quiet(t.value) not in ('scalar', 'unknown'))
+                self.escape(t.slice, False, untracked, untracked)        # an object used as a key is kept by the container
+            self.escape_kind(kind, untracked or self.depth(t.value) <= 1, untracked and not tracked(shape))
             return
         if isinstance(t, ast.Attribute):
             kb = self.classify(t.value)
             if kb[0] not in ('scalar', 'unknown'):
                 self.fail(t, 'attribute store on a list-valued expression')
-            if self.state_pred(sc)(t.value) and has_trust(ATTR_SHAPES.get(t.attr, A)) and norm(meet(ATTR_SHAPES[t.attr], shape)) != norm(ATTR_SHAPES[t.attr]):
+            cur = attr_shape(self.state_pred(sc)(t.value), t.attr, A) if self.state_pred(sc)(t.value) else A
+            if has_trust(cur) and norm(meet(cur, shape)) != norm(cur):
                 self.flag(node, 'a writer attribute with trusted positions is assigned a value that does not have them')
             if expr_text(t) == 'query_context.writer':
                 v = getattr(node, 'value', None)
                 if not (isinstance(node, ast.Assign) and (self.writer_value(v, sc.locals) or (isinstance(v, ast.Name) and v.id in sc.wlocals))):
                     self.fail(node, 'query_context.writer is assigned something that is not a writer of the chain')
-            self.escape_kind(kind)
+            self.escape_kind(kind, True, not tracked(shape))    # untracked state: an untrusted value kept there comes back as a CELL
             return
         self.fail(node, 'assignment target form %s' % type(t).__name__)
 
@@ -2327,8 +2469,8 @@ class Tr:
         self.sub(lambda: box.append(self.classify(e)[0]))
         return box[0]
 
-    def escape_kind(self, kind, row_ok=False):
-        if kind[0] in ('scalar', 'unknown'):
+    def escape_kind(self, kind, row_ok=False, silent=False):
+        if kind[0] in ('scalar', 'unknown') or silent:
             return
         if kind[0] == 'cell' and row_ok:
             return
@@ -2398,7 +2540,9 @@ class Tr:
                 return
             if isinstance(t, ast.Subscript):
                 self.store_into(t.value, s)
-                self.escape(t.slice, False) if not isinstance(t.slice, ast.Slice) else None
+                if not isinstance(t.slice, ast.Slice):
+                    un = self.classify_quiet(t.value) in ('scalar', 'unknown')
+                    self.escape(t.slice, False, un, un)
                 self.read(s.value)
                 return
             if isinstance(t, ast.Attribute):
